@@ -195,12 +195,24 @@ func (s *Service) refreshAccounts(ctx context.Context) {
 			wallet, err := s.openWallet(ctx, walletName)
 			if err != nil {
 				s.log.Warn().Err(err).Str("wallet", walletName).Msg("Failed to open wallet")
+				mu.Lock()
+				s.retainWalletAccounts(walletName, accounts, &pubKeys)
+				mu.Unlock()
 				return
 			}
 			log := s.log.With().Str("wallet", wallet.Name()).Logger()
 			log.Trace().Dur("elapsed", time.Since(started)).Msg("Obtained semaphore")
 			walletAccounts := s.fetchAccountsForWallet(ctx, wallet, verificationRegexes[wallet.Name()])
 			log.Trace().Dur("elapsed", time.Since(started)).Int("accounts", len(walletAccounts)).Msg("Obtained accounts")
+			if len(walletAccounts) == 0 {
+				// No accounts is what a failed listing looks like; as for the list as a whole,
+				// retain what is known of this wallet rather than dropping its validators.
+				log.Warn().Msg("No accounts obtained for wallet; retaining its old accounts")
+				mu.Lock()
+				s.retainWalletAccounts(wallet.Name(), accounts, &pubKeys)
+				mu.Unlock()
+				return
+			}
 			mu.Lock()
 			for k, v := range walletAccounts {
 				accounts[k] = v
@@ -222,6 +234,22 @@ func (s *Service) refreshAccounts(ctx context.Context) {
 	s.accounts = accounts
 	s.pubKeys = pubKeys
 	s.mutex.Unlock()
+}
+
+// retainWalletAccounts carries the accounts currently known for a wallet over to a new set of accounts.
+func (s *Service) retainWalletAccounts(walletName string, accounts map[phase0.BLSPubKey]e2wtypes.Account, pubKeys *[]phase0.BLSPubKey) {
+	s.mutex.RLock()
+	defer s.mutex.RUnlock()
+	for pubKey, account := range s.accounts {
+		walletProvider, isProvider := account.(e2wtypes.AccountWalletProvider)
+		if !isProvider || walletProvider.Wallet() == nil || walletProvider.Wallet().Name() != walletName {
+			continue
+		}
+		if _, exists := accounts[pubKey]; !exists {
+			accounts[pubKey] = account
+			*pubKeys = append(*pubKeys, pubKey)
+		}
+	}
 }
 
 // openWallet opens a wallet, using an existing one if present.
